@@ -250,7 +250,7 @@ func (h H) snapshotAtAppliedIndex(rule string) {
 	for _, f := range h.P.Funcs() {
 		core.Instrs(f, func(in ssa.Instruction) {
 			if a, ok := in.(*ssa.Alloc); ok {
-				if pt, ok := a.Type().(*types.Pointer); ok && types.Identical(pt.Elem(), resp) {
+				if pt, ok := a.Type().(*types.Pointer); ok && types.Identical(pt.Elem(), resp) && strings.HasPrefix(a.Comment, "complit") {
 					n++
 					h.C.Check(rule+" who-builds-response", "fsmSnapResp in "+h.name(core.Root(f)), h.name(core.Root(f)) == "(*stateMachine).onSnapReq", h.pos(in), "snapshot responses must be built by the FSM goroutine's onSnapReq")
 				}
